@@ -795,7 +795,11 @@ func c20scannerErrors(c *Ctx) {
 			if !isIf || !(id.Succs[0] == d || id.Succs[0].Dominates(s.b)) || len(id.Succs[0].Preds) != 1 {
 				continue
 			}
-			if cmp, isCmp := br.Cond.(*ssa.BinOp); isCmp && cmp.Op == token.EQL {
+			for _, cj := range conjuncts(br.Cond) {
+				cmp, isCmp := cj.(*ssa.BinOp)
+				if !isCmp || cmp.Op != token.EQL {
+					continue
+				}
 				if k, isK := cmp.Y.(*ssa.Const); isK && k.Value != nil && k.Int64() == 0 {
 					if l, isL := cmp.X.(*ssa.Call); isL {
 						if bi, isB := l.Call.Value.(*ssa.Builtin); isB && bi.Name() == "len" && data != nil && l.Call.Args[0] == data {
